@@ -203,7 +203,8 @@ def gen_sheet(rng):
             return rng.choice(["k%d" % i] * 6 + [None, " ", "\u2003"]) if not spec['ladder'] else rng.choice(
                 ["k%d" % i, "k%d" % i, "k%d" % i, None, "", "\xa0", "\u3000 "])
         if t == 'Name':
-            return rng.choice([None, " n%d " % i, "x", 17, ""])
+            # (a text column also holds numbers and flags: 0 and False are values like 17)
+            return rng.choice([None, " n%d " % i, "x", 17, "", 0, 0.0, False])
         if t == 'Num':
             return rng.choice([None, i, 0, -5])
         if t == 'Flag':
